@@ -571,18 +571,16 @@ V('c04-move-keeps-uid', 'C04', 'R4.1', DICTMBX,
 
     async def get''')
 V('c04-maildir-no-increment', 'C04', 'R4.2', MAILDIRMBX,
-  '''            new_rec = Record(uidl.next_uid, fields, filename)
-            uidl.next_uid += 1
-            uidl.set(new_rec)
-        return Message.from_maildir(''',
-  '''            new_rec = Record(uidl.next_uid, fields, filename)
-            uidl.set(new_rec)
-        return Message.from_maildir(''')
+  '''                fields = {'E': str(email_id), 'T': str(thread_id)}
+                new_rec = Record(uidl.next_uid, fields, filename)
+                uidl.next_uid += 1''',
+  '''                fields = {'E': str(email_id), 'T': str(thread_id)}
+                new_rec = Record(uidl.next_uid, fields, filename)''')
 V('c04-maildir-with-read', 'C04', 'R4.2', MAILDIRMBX,
-  '''        async with UidList.with_write(destination._path) as uidl:
-            new_rec = Record(uidl.next_uid, record.fields, dest_filename)''',
-  '''        async with UidList.with_read(destination._path) as uidl:
-            new_rec = Record(uidl.next_uid, record.fields, dest_filename)''')
+  '''            async with UidList.with_write(destination._path) as uidl:
+                new_rec = Record(uidl.next_uid, record.fields, dest_filename)''',
+  '''            async with UidList.with_read(destination._path) as uidl:
+                new_rec = Record(uidl.next_uid, record.fields, dest_filename)''')
 V('c04-maildir-no-set', 'C04', 'R4.2', MAILDIRMBX,
   '''            new_rec = Record(uidl.next_uid, rec.fields, new_filename)
             uidl.next_uid += 1
@@ -951,11 +949,17 @@ V('c15-index-before-file', 'C15', 'R15.4', MAILDIRMBX,
                                              self.maildir_flags)
             key = maildir.add(maildir_msg)
             filename = key + ':' + maildir_msg.get_info()
-        async with UidList.with_write(self._path) as uidl:
-            fields = {'E': str(email_id), 'T': str(thread_id)}
-            new_rec = Record(uidl.next_uid, fields, filename)
-            uidl.next_uid += 1
-            uidl.set(new_rec)''',
+        try:
+            async with UidList.with_write(self._path) as uidl:
+                fields = {'E': str(email_id), 'T': str(thread_id)}
+                new_rec = Record(uidl.next_uid, fields, filename)
+                uidl.next_uid += 1
+                uidl.set(new_rec)
+        except BaseException:
+            # The message never got a UID, do not leave its file behind.
+            async with self.messages_lock.write_lock():
+                maildir.discard(key)
+            raise''',
   '''        maildir_msg = Message.to_maildir(append_msg, recent,
                                          self.maildir_flags)
         async with UidList.with_write(self._path) as uidl:
@@ -967,14 +971,13 @@ V('c15-index-before-file', 'C15', 'R15.4', MAILDIRMBX,
             key = maildir.add(maildir_msg)
             filename = key + ':' + maildir_msg.get_info()''')
 V('c15-return-inside-block', 'C15', 'R15.4', MAILDIRMBX,
-  '''            new_rec = Record(uidl.next_uid, record.fields, dest_filename)
-            uidl.next_uid += 1
-            uidl.set(new_rec)
-        return new_rec.uid''',
-  '''            new_rec = Record(uidl.next_uid, record.fields, dest_filename)
-            uidl.next_uid += 1
-            uidl.set(new_rec)
-            return new_rec.uid''')
+  '''                new_rec = Record(uidl.next_uid, record.fields, dest_filename)
+                uidl.next_uid += 1
+                uidl.set(new_rec)''',
+  '''                new_rec = Record(uidl.next_uid, record.fields, dest_filename)
+                uidl.next_uid += 1
+                uidl.set(new_rec)
+                return new_rec.uid''')
 V('c15-flag-copy-delete', 'C15', 'R15.5', MAILDIRMBX,
   '''            os.rename(old_path, new_path)
             self._update(key, new_subpath)''',
@@ -1055,8 +1058,8 @@ V('c09-verify-skipped', 'C09', 'R9.3', USERPY,
   '''        return credentials.verify(identity)''',
   '''        return credentials.verify(identity) or identity.password is None''')
 V('c09-compare-secret-none-true', 'C09', 'R9.3', USERPY,
-  '''            return hash_context.verify(prepare(value), prepare(password))
-        return False''', '''            return hash_context.verify(prepare(value), prepare(password))
+  '''            return hash_context.verify(prepared, prepare(password))
+        return False''', '''            return hash_context.verify(prepared, prepare(password))
         return True''')
 V('c09-authorize-or', 'C09', 'R9.4', DICTINIT,
   "if authcid != authzid and 'admin' not in roles:",
@@ -1830,7 +1833,11 @@ V('c06-number-unguarded-int', 'C06', 'R6.2', PRIM,
   '''        atom = match.group(0)
         if not cls._num_pattern.match(atom):
             raise NotParseable(buf)
-        return cls(int(match.group(0))), buf[match.end(0):]''',
+        try:
+            num = int(match.group(0))
+        except ValueError as exc:
+            raise NotParseable(buf) from exc
+        return cls(num), buf[match.end(0):]''',
   '''        return cls(int(match.group(0))), buf[match.end(0):]''')
 V('c06-date-filter-valueerror', 'C06', 'R6.2', SKEYPY2,
   '''        try:
